@@ -1,11 +1,17 @@
 (* C08 - Scaling multiplies exactly the scalable amounts and nothing else.
-   Statements only; proofs live in Proofs/ScaleProofs.v.  The model is Model/Scale.v
+   Statements only; proofs live in Proofs/ScaleProofs.v and Proofs/ScaleTotal.v.  The model is Model/Scale.v
    (src/scale.rs 111-336) over Model/Convert.v (fit, src/convert/mod.rs 505-601), exact rational
    arithmetic.  A recipe is ANY value of the model's recipe type (not only parsed ones); the fields
    scaling only moves are opaque frames of arbitrary types IF CF MF.  Every theorem holds for every
    rational factor f (positive or not), every converter with positive ratios whose index resolves
-   the symbol of every stored unit (both proved for the shipped table in C09_bundled_wellformed),
-   and is conditional on the model not reaching a panic site ([= Done r']).
+   the symbol of every stored unit (both proved for the shipped table in C09_bundled_wellformed).
+   No panic site of the model (Unit::symbol, all_units[id], fractions_config, the assert_eq! of
+   convert_f64, the asserts of new_approx) is reachable on a well-formed converter [conv_wf]:
+   C08_scale_total; the theorems written `scale ... = Done r' -> ...` merely name the result.
+     conv_wf c   index entries point into all_units; every unit has a key; the symbol of a stored unit
+                 resolves to it; best lists hold stored units of their own physical quantity; every
+                 fractions configuration has accuracy in [0,1] and max_denominator <= 64
+                 (what ConverterBuilder::finish establishes, C16; checked for the shipped table here)
 
    Vocabulary (Proofs/ScaleProofs.v):
      times_amount c f q0 q'   q' is q0 times f as a physical amount: unit known to the converter ->
@@ -14,7 +20,8 @@
                               when the unit has no offset); otherwise q' is q0 with its value times f
      same_amount c q0 q'      amount(q') = amount(q0) (unit known) / q' = q0 (unit unknown, text)
      quantity_rel, cookware_rel, scale_rel   the case analysis of one quantity / the whole recipe *)
-From CL Require Import Base.StrLemmas Model.Convert Model.Standards Proofs.ConvertProofs Model.Scale Proofs.ScaleProofs.
+From CL Require Import Base.StrLemmas Model.Convert Model.Standards Proofs.ConvertProofs Model.Scale Proofs.ScaleProofs
+  Proofs.ScaleTotal.
 From CL Require Model.Analysis.
 Open Scope Q_scope.
 
@@ -24,17 +31,51 @@ Theorem C08_new_approx_exact : forall v cfg n, new_approx v cfg = Done (Some n) 
 Proof. exact new_approx_exact. Qed.
 Print Assumptions C08_new_approx_exact.
 
+(* ... and it never trips its assertions on a clamped configuration (quantity.rs 736-737) *)
+Theorem C08_new_approx_total : forall v cfg, cfg_ok cfg -> exists o, new_approx v cfg = Done o.
+Proof. exact new_approx_total. Qed.
+Print Assumptions C08_new_approx_total.
+
+(* the regenerated shipped table is well formed (boolean reflection of the five clauses) *)
+Theorem C08_bundled_wellformed : conv_wf bundled_conv /\ ratios_pos bundled_conv.
+Proof. split; [exact bundled_wf|exact bundled_ratios_pos]. Qed.
+Print Assumptions C08_bundled_wellformed.
+
+(* scaling never panics: for every recipe value, every factor, every well-formed converter and every
+   approximation function that returns on clamped configurations, ScaledQuantity::fit, scale and
+   scale_to_servings return (default_scale is a plain function of the model: it cannot panic); the
+   only other result of scale_to_servings is the marker of a non-finite factor, for a zero base *)
+Theorem C08_scale_total : forall approx c,
+  (forall v cfg, cfg_ok cfg -> exists o, approx v cfg = Done o) -> conv_wf c ->
+  (forall q, exists r, fit approx c q = Done r) /\
+  (forall (IF CF MF : Type) f (r : s_recipe IF CF MF), exists r', scale approx c f r = Done r') /\
+  (forall (IF CF MF : Type) n (r : s_recipe IF CF MF),
+     (servings_base r <> 0%N -> exists r', scale_to_servings approx c n r = Done r') /\
+     (servings_base r = 0%N -> scale_to_servings approx c n r = Panic site_factor_not_finite)).
+Proof.
+  intros approx c Ha Hwf. split; [exact (fit_total approx Ha c Hwf)|].
+  split; [intros IF CF MF f r; exact (scale_total approx Ha c Hwf f r)|].
+  intros IF CF MF n r.
+  split; [exact (scale_to_servings_total approx Ha c Hwf n r)|exact (scale_to_servings_zero approx c n r)].
+Qed.
+Print Assumptions C08_scale_total.
+
 Section Scaling.
   Variable approx : Q -> frac_cfg -> outcome (option number).
   Hypothesis approx_exact : forall v cfg n, approx v cfg = Done (Some n) -> num_value n == v.
+  Hypothesis approx_total : forall v cfg, cfg_ok cfg -> exists o, approx v cfg = Done o.
   Context {IF CF MF : Type}.
 
-  (* the whole statement at once: frame, outcomes aligned with the components, and for every
-     ingredient / cookware / timer the case that applies (see quantity_rel, cookware_rel) *)
-  Theorem C08_components : forall c f (r : s_recipe IF CF MF) r',
-    ratios_pos c -> index_consistent c ->
-    scale approx c f r = Done r' -> scale_rel c f r r'.
-  Proof. exact (scale_spec approx approx_exact). Qed.
+  (* the whole statement at once, with no condition on the result: scaling returns a recipe, and in
+     it the frame, the outcomes aligned with the components, and for every ingredient / cookware /
+     timer the case that applies (see quantity_rel, cookware_rel) *)
+  Theorem C08_components : forall c f (r : s_recipe IF CF MF),
+    ratios_pos c -> conv_wf c ->
+    exists r', scale approx c f r = Done r' /\ scale_rel c f r r'.
+  Proof.
+    intros c f r Hp Hwf. destruct (scale_total approx approx_total c Hwf f r) as [r' H].
+    exists r'. split; [exact H|]. exact (scale_spec approx approx_exact c f r r' Hp (wf_index c Hwf) H).
+  Qed.
 
   (* a Linear numeric or range ingredient quantity is multiplied by f as a physical amount; the
      outcome at the same index is Scaled *)
@@ -171,11 +212,12 @@ Print Assumptions C08_which_linear_quantity.
 
 (* no hypothesis left: the shipped unit table (regenerated Gen/UnitsToml.v through the model of the
    builder) with the model of Number::new_approx *)
-Theorem C08_shipped : forall {IF CF MF : Type} f (r : s_recipe IF CF MF) r',
-  scale new_approx bundled_conv f r = Done r' -> scale_rel bundled_conv f r r'.
+Theorem C08_shipped : forall {IF CF MF : Type} f (r : s_recipe IF CF MF),
+  exists r', scale new_approx bundled_conv f r = Done r' /\ scale_rel bundled_conv f r r'.
 Proof.
-  intros IF CF MF f r r'.
-  exact (scale_spec new_approx new_approx_exact bundled_conv f r r' bundled_ratios_pos bundled_index_consistent).
+  intros IF CF MF f r. destruct (scale_total new_approx new_approx_total bundled_conv bundled_wf f r) as [r' H].
+  exists r'. split; [exact H|].
+  exact (scale_spec new_approx new_approx_exact bundled_conv f r r' bundled_ratios_pos bundled_index_consistent H).
 Qed.
 Print Assumptions C08_shipped.
 
